@@ -166,6 +166,50 @@ class RangeCmp(ast.NodeTransformer):
         return node
 
 
+class InlineTemps(ast.NodeTransformer):
+    """`t = E` directly followed by the only statement that reads t -> that statement with E in place of t (E built from
+    names, attributes, constants, subscripts and operators only, so evaluation order does not matter)"""
+
+    @staticmethod
+    def _pure(e):
+        return all(isinstance(x, (ast.Name, ast.Attribute, ast.Constant, ast.Subscript, ast.BinOp, ast.Compare, ast.UnaryOp, ast.BoolOp, ast.operator, ast.cmpop, ast.unaryop, ast.boolop, ast.expr_context, ast.Tuple)) for x in ast.walk(e))
+
+    def _fix(self, fnode, body):
+        out = []
+        i = 0
+        while i < len(body):
+            st = body[i]
+            nxt = body[i + 1] if i + 1 < len(body) else None
+            if isinstance(st, ast.Assign) and len(st.targets) == 1 and isinstance(st.targets[0], ast.Name) and nxt is not None and not isinstance(nxt, (ast.FunctionDef, ast.ClassDef, ast.For, ast.While, ast.With, ast.Try, ast.If, ast.Match)) and self._pure(st.value):
+                name = st.targets[0].id
+                uses = [x for x in ast.walk(fnode) if isinstance(x, ast.Name) and x.id == name]
+                here = [x for x in ast.walk(nxt) if isinstance(x, ast.Name) and x.id == name and isinstance(x.ctx, ast.Load)]
+                free = {x.id for x in ast.walk(st.value) if isinstance(x, ast.Name)}
+                rebinds = any(isinstance(x, ast.Name) and not isinstance(x.ctx, ast.Load) and x.id in free for x in ast.walk(nxt))
+                if len(uses) == 2 and len(here) == 1 and not rebinds and not any(isinstance(x, (ast.Lambda, ast.ListComp, ast.SetComp, ast.DictComp, ast.GeneratorExp)) for x in ast.walk(nxt)):
+                    class Sub(ast.NodeTransformer):
+                        def visit_Name(self, n):
+                            return st.value if n is here[0] else n
+                    out.append(Sub().visit(nxt))
+                    i += 2
+                    continue
+            out.append(st)
+            i += 1
+        return out
+
+    def generic_visit(self, node):
+        super().generic_visit(node)
+        if isinstance(node, (ast.FunctionDef, ast.AsyncFunctionDef)):
+            for holder in ast.walk(node):
+                if holder is not node and isinstance(holder, (ast.FunctionDef, ast.AsyncFunctionDef, ast.ClassDef, ast.Lambda)):
+                    continue
+                for fld in ("body", "orelse", "finalbody"):
+                    v = getattr(holder, fld, None)
+                    if isinstance(v, list) and v and isinstance(v[0], ast.stmt):
+                        setattr(holder, fld, self._fix(node, v))
+        return node
+
+
 class ElseAfterReturn(ast.NodeTransformer):
     """`if c: ...return/raise` followed by the rest of the block -> the rest moves into an else branch"""
 
@@ -223,6 +267,8 @@ def transform(src: str, which: str) -> str:
         tree = SplitAnd().visit(tree)
     if which == "elseafter":
         tree = ElseAfterReturn().visit(tree)
+    if which == "inlinetemps":
+        tree = InlineTemps().visit(tree)
     if which == "demorgan":
         tree = DeMorgan().visit(tree)
     if which == "rangecmp":
